@@ -26,7 +26,11 @@ def bank(tier):
 SLOW_MODEL = {(8192, 8192), (16384, 16384), (1024, 65536)}
 
 def generate(rng, tier):
-    shapes = [s for s in bank(tier) if tier == "thorough" or s not in SLOW_MODEL]
+    # the slowest model counts (minutes in the OCaml driver) only in a real thorough run, not when the
+    # drift sentinel merely escalated a quick run: the implementation-side criteria in extra_checks
+    # cover those shapes in every tier anyway
+    slow_ok = tier == "thorough" and not os.environ.get("VERIF_ESCALATED")
+    shapes = [s for s in bank(tier) if slow_ok or s not in SLOW_MODEL]
     cases = ["h.bank_cost %s %s" % (N(a), N(b)) for a, b in shapes]
     cases += ["h.bank_cost %s %s" % (N(b), N(a)) for a, b in shapes if a != b and b <= 4096]
     lens = [1, 2, 3, 31, 32, 33, 34, 63, 64, 65, 66, 96, 127, 128, 129, 130, 255, 256, 257, 258, 300, 384, 512, 513, 600]
